@@ -17,6 +17,12 @@ Fragment
                `e as T`, `+ - * / %` on integers (profile-dependent overflow, `/` `%` panic on 0),
                `< <= > >= == !=`, `min(a, b)`, `a.saturating_add(b)`, `v.len()`, `self.m()` for
                a translated `&self` method m, parentheses.
+               For functions that return `Result<(), ValidationError>` (Gallina: bool, true = Ok):
+               `Option<u64>` parameters, `if let Some(x) = e { .. } [else { .. }]`, `Ok(())`,
+               `return Ok(());`, `policy_err!(self, "tag", ..)` (= return Err unless the policy filter
+               downgrades the tag: `warn tag`), `a.checked_mul(b).ok_or(..)?` (= return Err on
+               overflow), `core::cmp::max(a, b)`, `self.policy.f` (a parameter of the translation),
+               `.into()` from u8 to u64.
 Meaning of each construct: coq/theories/Base/Rust.v.  usize is u64 (64-bit target)."""
 import os, re, sys
 
@@ -32,9 +38,10 @@ class GenError(Exception):
 
 TOK = re.compile(r"""
     (?P<ws>\s+|//[^\n]*|/\*.*?\*/)
+  | (?P<str>"(?:[^"\\]|\\.)*")
   | (?P<num>\d[\d_]*(?:u64|u32|usize|u16|u8)?)
   | (?P<id>[A-Za-z_][A-Za-z0-9_]*)
-  | (?P<op>\.\.|->|==|!=|<=|>=|&&|\|\||::|[-+*/%<>=!&|(){}\[\];:,.])
+  | (?P<op>\.\.|->|==|!=|<=|>=|&&|\|\||::|[-+*/%<>=!&|(){}\[\];:,.?])
 """, re.X | re.S)
 
 
@@ -72,10 +79,14 @@ def struct_fields(src, name):
 
 def norm_type(t):
     t = re.sub(r"\s+", "", t)
-    if t in ("u64", "u32", "usize", "bool"):
+    if t in ("u64", "u32", "usize", "bool", "u8"):
         return t
     if t == "Vec<u64>":
         return "vec"
+    if t == "Option<u64>":
+        return "opt_u64"
+    if t == "Result<(),ValidationError>":
+        return "result_unit"
     raise GenError("type %s is outside the fragment" % t)
 
 
@@ -155,11 +166,20 @@ class P:
 
     def type(self):
         v = self.eat(kind="id")
-        if v == "Vec":
+        if self.at("<"):
             self.eat("<")
-            inner = self.eat(kind="id")
-            self.eat(">")
-            v = "Vec<%s>" % inner
+            depth, inner = 1, ""
+            while depth:
+                k, t = self.peek()
+                self.i += 1
+                if t == "<":
+                    depth += 1
+                elif t == ">":
+                    depth -= 1
+                    if depth == 0:
+                        break
+                inner += t
+            v = "%s<%s>" % (v, inner)
         return norm_type(v)
 
     def block(self):
@@ -205,9 +225,9 @@ class P:
                 stmts.append(("return", e))
             elif self.at("if"):
                 e = self.if_expr()
-                if e[0] == "if_stmt":
+                if e[0] in ("if_stmt", "iflet_stmt"):
                     stmts.append(e)
-                elif self.at("}"):
+                elif self.at("}") or self.at(";"):
                     tail = e
                 else:
                     raise GenError("an if/else statement that is not the tail of its block is outside the fragment")
@@ -230,12 +250,27 @@ class P:
 
     def if_expr(self):
         self.eat("if")
+        if self.at("let"):
+            self.eat("let")
+            self.eat("Some")
+            self.eat("(")
+            x = self.eat(kind="id")
+            self.eat(")")
+            self.eat("=")
+            e = self.expr()
+            a = self.block()
+            if self.at("else"):
+                self.eat("else")
+                b = self.block()
+                return ("iflet", x, e, a, b)
+            return ("iflet_stmt", x, e, a)
         c = self.expr()
         a = self.block()
         if not self.at("else"):
-            # `if c { ...; return e; }` : the block must leave the function
-            if a[1] is not None or not a[0] or a[0][-1][0] != "return":
-                raise GenError("an if without else whose block does not end in `return` is outside the fragment")
+            if a[1] is not None and a[1][0] != "macro":
+                raise GenError("an if without else whose block has a value is outside the fragment")
+            if a[1] is not None:
+                a = (a[0] + [("expr", a[1])], None)
             return ("if_stmt", c, a)
         self.eat("else")
         b = self.block()
@@ -308,26 +343,60 @@ class P:
                 i = self.expr()
                 self.eat("]")
                 a = ("index", a, i)
+            elif self.at("?"):
+                self.eat("?")
+                a = ("try", a)
             else:
                 break
         return a
 
     def primary(self):
         k, v = self.peek()
+        if k == "str":
+            self.eat()
+            return ("str", v)
         if k == "num":
             self.eat()
             m = re.match(r"([\d_]+)(u64|u32|usize|u16|u8)?$", v)
             return ("lit", int(m.group(1).replace("_", "")), m.group(2))
         if v == "(":
             self.eat("(")
+            if self.at(")"):
+                self.eat(")")
+                return ("unit",)
             e = self.expr()
             self.eat(")")
             return e
         if v in ("true", "false"):
             self.eat()
             return ("bool", v)
+        if v == "if":
+            return self.if_expr()
         if k == "id":
             self.eat()
+            while self.at("::"):          # a path: only its last segment matters here
+                self.eat("::")
+                v = self.eat(kind="id")
+            if self.at("!"):              # macro invocation: (receiver, "tag", format arguments ...)
+                self.eat("!")
+                self.eat("(")
+                depth, args, cur = 1, [], []
+                while depth:
+                    kk, t = self.peek()
+                    self.i += 1
+                    if t in "([{":
+                        depth += 1
+                    elif t in ")]}":
+                        depth -= 1
+                        if depth == 0:
+                            break
+                    if t == "," and depth == 1:
+                        args.append(cur)
+                        cur = []
+                    else:
+                        cur.append((kk, t))
+                args.append(cur)
+                return ("macro", v, args)
             if self.at("("):
                 self.eat("(")
                 args = []
@@ -338,6 +407,8 @@ class P:
                 self.eat(")")
                 return ("call", v, args)
             return ("var", v)
+        if v == "(" :
+            pass
         raise GenError("unexpected token %r in an expression" % v)
 
 
@@ -347,9 +418,11 @@ INT = ("u64", "usize", "u32")
 
 
 class Gen:
-    def __init__(self, struct, fields, methods):
+    def __init__(self, struct, fields, methods, policy_fields=None):
         self.struct, self.fields, self.methods = struct, dict(fields), methods
         self.tmp = 0
+        self.policy_fields = policy_fields or {}
+        self.policy_used = []
 
     def fresh(self):
         self.tmp += 1
@@ -376,6 +449,35 @@ class Gen:
             return [], e[1], env[e[1]]
         if k == "deref":
             return self.expr(e[1], env, want)
+        if k == "field" and e[1] == ("field", ("var", "self"), "policy"):
+            f = e[2]
+            if f not in self.policy_fields:
+                raise GenError("self.policy.%s: unknown policy field" % f)
+            if f not in self.policy_used:
+                self.policy_used.append(f)
+            return [], "policy_%s" % f, self.policy_fields[f]
+        if k == "iflet":
+            b0, c0, t0 = self.expr(e[2], env)
+            if t0 != "opt_u64":
+                raise GenError("if let Some(..) on a %s" % t0)
+            env_a = dict(env)
+            env_a[e[1]] = "u64"
+            ta, ty_a = self.value_block(e[3], env_a, want)
+            tb, ty_b = self.value_block(e[4], env, ty_a)
+            if ty_a != ty_b:
+                raise GenError("if let: branches of type %s and %s" % (ty_a, ty_b))
+            x = self.fresh()
+            return b0 + [(x, "match %s with\n| Some %s => (%s)\n| None => (%s)\nend" % (c0, e[1], ta, tb))], x, ty_a
+        if k == "try":
+            inner = e[1]
+            if inner[0] == "mcall" and inner[2] == "ok_or" and inner[1][0] == "mcall" and inner[1][2] == "checked_mul":
+                b1, a, ta = self.expr(inner[1][1], env)
+                b2, c, tc = self.expr(inner[1][3][0], env, ta)
+                if ta != "u64" or tc != "u64":
+                    raise GenError("checked_mul on %s" % ta)
+                x = self.fresh()
+                return b1 + b2 + [(x, "mul_checked %s %s" % (a, c), "try")], x, "u64"
+            raise GenError("`?` on %r is outside the fragment" % (inner,))
         if k == "field":
             if e[1] != ("var", "self") or e[2] not in self.fields:
                 raise GenError("field access %r is outside the fragment" % (e,))
@@ -396,12 +498,14 @@ class Gen:
             x = self.fresh()
             return b1 + b2 + [(x, "vec_get %s %s" % (v, i))], x, "u64"
         if k == "call":
-            if e[1] == "min" and len(e[2]) == 2:
+            if e[1] in ("min", "max") and len(e[2]) == 2:
                 b1, a, ta = self.expr(e[2][0], env)
                 b2, c, tc = self.expr(e[2][1], env, ta)
                 if ta != tc or ta not in INT:
-                    raise GenError("min of %s and %s" % (ta, tc))
-                return b1 + b2, "(N.min %s %s)" % (a, c), ta
+                    raise GenError("%s of %s and %s" % (e[1], ta, tc))
+                return b1 + b2, "(N.%s %s %s)" % (e[1], a, c), ta
+            if e[1] == "Ok" and e[2] == [("unit",)]:
+                return [], "true", "result_unit"
             raise GenError("call of %s is outside the fragment" % e[1])
         if k == "mcall":
             recv, name, args = e[1], e[2], e[3]
@@ -411,6 +515,11 @@ class Gen:
                 if ta != "u64" or tc != "u64":
                     raise GenError("saturating_add on %s" % ta)
                 return b1 + b2, "(sat_add %s %s)" % (a, c), "u64"
+            if name == "into" and not args:
+                b1, a, ta = self.expr(recv, env)
+                if ta == "u8" and (want or "u64") == "u64":
+                    return b1, a, "u64"
+                raise GenError(".into() from %s is outside the fragment" % ta)
             if name == "len" and not args:
                 b1, v, tv = self.expr(recv, env)
                 if tv != "vec":
@@ -423,7 +532,7 @@ class Gen:
         if k == "bin":
             op = e[1]
             b1, a, ta = self.expr(e[2], env, want if op in "+-*/%" else None)
-            b2, c, tc = self.expr(e[3], env, ta)
+            b2, c, tc = self.expr(e[3], env, ta if ta in INT else None)
             if e[2][0] == "lit" and e[2][2] is None and tc in INT:
                 ta = tc
             if ta != tc or ta not in INT:
@@ -442,9 +551,33 @@ class Gen:
 
     # statements, in continuation style: returns Gallina text of "the rest of the block after stmts"
     def emit_binds(self, binds, k):
-        for name, code in reversed(binds):
-            k = "%s <- %s ;;\n%s" % (name, code, k)
+        for b in reversed(binds):
+            name, code = b[0], b[1]
+            if len(b) > 2 and b[2] == "try":
+                # `expr?` : the function returns Err when the option is None
+                if self.cur["ret"] != "result_unit":
+                    raise GenError("`?` in a function that does not return Result<(), _>")
+                k = "match %s with\n| Some %s =>\n%s\n| None => %s\nend" % (code, name, k, self.leave("false"))
+            else:
+                k = "%s <- %s ;;\n%s" % (name, code, k)
         return k
+
+    def leave(self, code):
+        return "Val (self, %s)" % code if self.cur["selfmode"] == "mut" else "Val %s" % code
+
+    def value_block(self, blk, env, want=None):
+        """a block used as a value: -> (monadic text ending in Val <value>, type)"""
+        ss, tail = blk
+        if tail is None:
+            raise GenError("a block used as a value has no value")
+        box = {}
+
+        def k(env2):
+            b, c, t = self.expr(tail, env2, want)
+            box["t"] = t
+            return self.emit_binds(b, "Val %s" % c)
+        text = self.stmts(ss, env, k)
+        return text, box["t"]
 
     def assigned(self, stmts):
         """variables (and `self`) a list of statements assigns"""
@@ -461,6 +594,10 @@ class Gen:
                 out += self.assigned(s[4])
             elif s[0] == "for_iter":
                 out += self.assigned(s[3])
+            elif s[0] == "if_stmt":
+                out += self.assigned(s[2][0])
+            elif s[0] == "iflet_stmt":
+                out += self.assigned(s[3][0])
         seen = []
         for x in out:
             if x not in seen:
@@ -485,8 +622,29 @@ class Gen:
             b, c, t = self.expr(s[1], env)
             if t != "bool":
                 raise GenError("if on a non-boolean")
-            inside = self.stmts(s[2][0], env, lambda e2: "Trap")
+            if self.assigned(s[2][0]):
+                raise GenError("an if without else that assigns is outside the fragment")
+            # the block, then whatever follows the if (a `return` inside the block drops it)
+            inside = self.stmts(s[2][0] + rest, env, k)
             return self.emit_binds(b, "if %s\nthen (%s)\nelse (%s)" % (c, inside, self.stmts(rest, env, k)))
+        if s[0] == "iflet_stmt":
+            b, c, t = self.expr(s[2], env)
+            if t != "opt_u64":
+                raise GenError("if let Some(..) on a %s" % t)
+            if s[3][1] is not None or self.assigned(s[3][0]):
+                raise GenError("an if let without else that has a value or assigns is outside the fragment")
+            env_a = dict(env)
+            env_a[s[1]] = "u64"
+            inside = self.stmts(s[3][0] + rest, env_a, k)
+            return self.emit_binds(b, "match %s with\n| Some %s => (%s)\n| None => (%s)\nend" % (c, s[1], inside, self.stmts(rest, env, k)))
+        if s[0] == "expr" and s[1][0] == "macro":
+            name, args = s[1][1], s[1][2]
+            if name == "policy_err" and len(args) >= 2 and args[0] == [("id", "self")] and len(args[1]) == 1 and args[1][0][0] == "str":
+                if self.cur["ret"] != "result_unit":
+                    raise GenError("policy_err! in a function that does not return Result<(), _>")
+                # policy_error(tag, ..)? : Err unless the policy filter downgrades the tag to a warning
+                return "if warn %s%%string\nthen (%s)\nelse %s" % (args[1][0][1], self.stmts(rest, env, k), self.leave("false"))
+            raise GenError("macro %s! is outside the fragment" % name)
         if s[0] == "let":
             b, c, t = self.expr(s[3], env, s[2])
             if s[2] and s[2] != t:
@@ -591,11 +749,16 @@ class Gen:
     def method(self, m):
         env = {x: t for x, t in m["params"]}
         self.cur = m
-        rt = {"u64": "N", "usize": "N", "u32": "N", "bool": "bool", "unit": "unit", "vec": "list N"}[m["ret"]]
-        params = " ".join("(%s : %s)" % (x, {"bool": "bool", "vec": "list N"}.get(t, "N")) for x, t in m["params"])
+        rt = {"u64": "N", "usize": "N", "u32": "N", "bool": "bool", "unit": "unit", "vec": "list N", "result_unit": "bool"}[m["ret"]]
+        params = " ".join("(%s : %s)" % (x, {"bool": "bool", "vec": "list N", "opt_u64": "option N"}.get(t, "N")) for x, t in m["params"])
         res = "(%s * %s)" % (self.struct, rt) if m["selfmode"] == "mut" else rt
         self.tmp = 0
+        self.policy_used = []
         body = self.block_value(m["body"], env, m)
+        if self.struct is None:
+            # a method of a validator: `self` only reaches the policy; its fields and the filter are parameters
+            pol = " ".join("(policy_%s : N)" % f for f in self.policy_used)
+            return "Definition gen_%s (prof : profile) (warn : string -> bool) %s %s : trap %s :=\n%s." % (m["name"], pol, params, res, indent(body))
         return "Definition gen_%s (prof : profile) (self : %s) %s : trap %s :=\n%s." % (m["name"], self.struct, params, res, indent(body))
 
     field_list = []
@@ -638,6 +801,39 @@ def generate_velocity(repo):
     return {"translated": ["VelocityControl::velocity", "VelocityControl::insert"], "fields": [f for f, _ in fields]}
 
 
+def policy_field_types(src, struct):
+    """name -> type of the integer fields of a policy struct (fields of other types are not needed)"""
+    m = re.search(r"pub struct %s\s*\{(.*?)\n\}" % re.escape(struct), src, re.S)
+    if not m:
+        raise GenError("struct %s not found" % struct)
+    out = {}
+    for fm in re.finditer(r"pub\s+([a-z_][a-z0-9_]*)\s*:\s*(u64|u32|u16|u8|usize)\s*,", m.group(1)):
+        out[fm.group(1)] = fm.group(2)
+    return out
+
+
+def generate_payments(repo):
+    path = os.path.join(repo, "vls-core", "src", "policy", "simple_validator.rs")
+    src = open(path).read()
+    pol = policy_field_types(src, "SimplePolicy")
+    name = "validate_payment_balance"
+    text_fn = fn_source(src, "SimpleValidator", name)
+    m = P(lex(text_fn)).fn()
+    g = Gen(None, [], {name: m}, pol)
+    body = g.method(m)
+    text = ("(** GENERATED by tools/gen_rustfn.py from vls-core/src/policy/simple_validator.rs\n"
+            "    (SimpleValidator::validate_payment_balance) - do not edit.  Statement by statement; the meaning of\n"
+            "    every construct is in Base/Rust.v.  Result<(), ValidationError> is rendered as bool (true = Ok),\n"
+            "    `policy_err!(self, tag, ..)` as: Err unless the policy filter [warn] downgrades the tag. *)\n"
+            "From Coq Require Import String.\nFrom VLS Require Export Base.Rust.\n\n"
+            "(* %s\n%s *)\n%s\n" % (name, "\n".join("   " + l for l in text_fn.strip().replace("(*", "( *").replace("*)", "* )").splitlines()), body))
+    out = os.path.join(ROOT, "coq", "theories", "Gen", "PaymentsGen.v")
+    if not os.path.exists(out) or open(out).read() != text:
+        open(out, "w").write(text)
+    return {"translated": ["SimpleValidator::validate_payment_balance"], "policy_fields": list(g.policy_used)}
+
+
 if __name__ == "__main__":
     repo = sys.argv[1] if len(sys.argv) > 1 else "/repo"
     print(generate_velocity(repo))
+    print(generate_payments(repo))
